@@ -243,6 +243,11 @@ func (w *World) rulesReturns(p *Pkg, m *parseModel, km *KvmModel, add func(ok bo
 				if named, ok := info.Types[cl].Type.(*types.Named); ok {
 					tn = named.Obj().Name()
 				}
+				if ks := m.kvmSem; tn == "ErrMissing" && ks != nil && ks.Decided && ks.TailWhy != "" && afterLoop(rs) {
+					// decided semantically for every subset of mandatory metrics (below)
+					add(true, "R01.pair", name("missing"), rs, "(nil, &ErrMissing{…}): provably non-nil")
+					return true
+				}
 				if tn == "ErrMissing" && km != nil && ifs != nil && inBody {
 					lit := ""
 					if len(cl.Elts) == 1 {
@@ -350,7 +355,20 @@ func (w *World) rulesReturns(p *Pkg, m *parseModel, km *KvmModel, add func(ok bo
 		add(false, "R01.pair", "ParseVector.success-count", fd, fmt.Sprintf("%d success returns, expected exactly one after all checks", successes))
 	}
 	// R01.complete: mandatory metrics (v3), tail checks (v2/v4)
-	if ov.Order == "free" {
+	if ks := m.kvmSem; ov.Order == "free" && ks != nil && ks.Decided && ks.TailWhy != "" {
+		for _, om := range ov.list {
+			if !om.Mandatory {
+				continue
+			}
+			inst := "ParseVector.missing[" + om.Abv + "]"
+			okM := ks.Missing[om.Abv]
+			add(okM, "R01.complete", inst, fd, map[bool]string{true: "a vector without " + om.Abv + " is refused; " + ks.TailWhy, false: ks.TailWhy}[okM])
+			add(okM, "R18.census", inst, fd, map[bool]string{true: "missing base metric -> *ErrMissing naming a missing one", false: ks.TailWhy}[okM])
+		}
+		if !ks.TailOK {
+			add(false, "R01.complete", "ParseVector.missing", fd, ks.TailWhy)
+		}
+	} else if ov.Order == "free" {
 		for _, om := range ov.list {
 			if om.Mandatory && !missingSeen[om.Abv] {
 				add(false, "R01.complete", "ParseVector.missing["+om.Abv+"]", fd, "no check that mandatory metric "+om.Abv+" was given: a vector without it is accepted")
